@@ -106,9 +106,9 @@ CLAIMED = {
        "always move - the three mutations (no re-check, no exclusion, flag before data) are shown to break it; (4) code-shaped model of "
        "XMLSynchronizedStringPool: ids_stable, getId_denotes, linearizable (every interleaving of the unlocked const-pool phase and the locked "
        "overflow phase equals the single-threaded execution in completion order, program order preserved), getId_asIs_not_stable (witness of "
-       "the defect in the code as written); (5) all_guarded_resources_have_site / all_markers_guarded over Gen/LockSites (every XMLMutexLock "
+       "the defect in the code as written); (5) all_guarded_resources_have_site / all_markers_guarded / all_guarded_site_counts over Gen/LockSites (every XMLMutexLock "
        "site and hook marker of this build configuration, regenerated from the sources each run): deleting the lock of a modelled access "
-       "point breaks a theorem, adding locks does not. Tie to the code: hook H2 (XERCES_VERIF_ACCESS/INIT/YIELD markers + a delegating, "
+       "point, with or without its marker (per-function site counts), breaks a theorem, adding locks does not. Tie to the code: hook H2 (XERCES_VERIF_ACCESS/INIT/YIELD markers + a delegating, "
        "recording XMLMutexMgr): the recorded trace of every run goes through the verified checker; per-thread result digests of N in "
        "{2,4,8,16} concurrent seeded workloads (no warm-up, seeded yields; private SAX2/DOM parsers with DTD/schema validation, parsers "
        "sharing one locked grammar pool, DOM build/serialise, regexes with category escapes, transcoders, owner-less doctypes, registry) must "
